@@ -216,6 +216,8 @@ def relational(run, seed, models, nproblems):
     # edge-specific parameters CARRIED BY THE TREE (lf.get_annotated_tree()): moving the root must move every edge's
     # parameters with the edge (time-reversible models with shared motif probs stay reversible edge by edge)
     ncases += annotated_reroot(run, rnd, [m for m in models if MODELS[m][1] and MODELS[m][0] != "protein"])
+    # very many distinct site patterns (beyond 2**16) under a clade that is not the first child
+    ncases += large_alignment(run, rnd)
     # wide polytomies: many children under one node (site patterns are indexed per node from the children's patterns)
     ncases += polytomy_cases(run, rnd)
     # non-vacuity of the reversibility guard: root placement DOES matter for non-reversible models
@@ -256,13 +258,42 @@ def annotated_reroot(run, rnd, models):
     return n
 
 
+def large_alignment(run, rnd):
+    """72000 random columns on 11 taxa: the 10-taxon clade X of (a, X) has more than 2**16 distinct site patterns.
+    lnL must not depend on child order, on the root, or on how the columns are split into blocks."""
+    import numpy as np
+    from cogent3 import make_aligned_seqs, make_tree
+
+    taxa = list("abcdefghijk")
+    ncol = 72000
+    arr = np.array(list("ACGT"))[np.random.RandomState(rnd.randrange(10**6)).randint(0, 4, size=(len(taxa), ncol))]
+    seqs = {t: "".join(arr[i]) for i, t in enumerate(taxa)}
+    aln = make_aligned_seqs(seqs, moltype="dna")
+    X = "((((b:0.1,c:0.2)n1:0.1,(d:0.15,e:0.1)n2:0.1)n3:0.05,((f:0.1,g:0.3)n4:0.1,(h:0.2,i:0.1)n5:0.2)n6:0.1)n7:0.1,(j:0.3,k:0.2)n8:0.1)X:0.2"
+    params = {"kappa": 2.0}
+    mprobs = {"A": 0.25, "C": 0.25, "G": 0.25, "T": 0.25}
+    t1 = make_tree(f"(a:0.2,{X});")
+    t2 = make_tree(f"({X},a:0.2);")
+    base = lnl("HKY85", t1, aln, params, mprobs)
+    n = 0
+    for tag, val in (("ReorderChildren", lnl("HKY85", t2, aln, params, mprobs)),
+                     ("MoveRoot", lnl("HKY85", t1.rooted_at("n3"), aln, params, mprobs)),
+                     ):
+        n += 1
+        if not close(val, base, 1e-9):
+            run.fail(f"large-alignment:{tag}", {"ncolumns": ncol, "ntaxa": len(taxa), "lnL_before": base, "lnL_after": val}, what=f"lnL of a 72000-column alignment (more than 2**16 site patterns in one clade) changed under {tag}")
+    return n
+
+
 def polytomy_cases(run, rnd):
     """Star trees with many tips: column order, child order and repetition must not matter, and lnL must equal the
     sum of the single-column lnLs (columns are independent)."""
     from cogent3 import make_aligned_seqs, make_tree
 
     n = 0
-    for model, kind, ntips, ncols in (("HKY85", "nucleotide", 24, 48), ("GY94", "codon", 11, 14)):
+    for model, kind, ntips, ncols in (("HKY85", "nucleotide", 24, 48), ("GY94", "codon", 11, 14), ("HKY85", "nucleotide-gapped", 70, 36)):
+        gapped = kind.endswith("-gapped")
+        kind = kind.split("-")[0]
         tips = [f"t{i:02d}" for i in range(ntips)]
         lens = [round(rnd.uniform(0.05, 0.4), 3) for _ in tips]
         nwk = "(" + ",".join(f"{t}:{l}" for t, l in zip(tips, lens)) + ");"
@@ -279,6 +310,14 @@ def polytomy_cases(run, rnd):
             for k in rnd.sample(range(3), rnd.randint(1, 3)) if c % 4 else rnd.sample(range(ntips), 3):
                 col[k] = rnd.choice(alpha)
             cols.append(col)
+        if gapped:
+            # > 64 children, every sequence with one gap (6 patterns per leaf): a pattern key built from the children's
+            # pattern numbers exceeds 63 bits; columns that differ only in the FIRST children must stay distinct
+            for k in range(ntips):
+                cols[rnd.randrange(ncols)][k] = "-"
+            for c in range(0, ncols, 3):
+                cols[c] = list(cols[(c + 1) % ncols])
+                cols[c][rnd.randrange(4)] = rnd.choice([x for x in alpha if x != cols[c][0]])
         seqs = {t: "".join(c[i] for c in cols) for i, t in enumerate(tips)}
         aln = make_aligned_seqs(seqs, moltype="dna")
         params = {"kappa": 2.5} if model == "HKY85" else {"kappa": 2.5, "omega": 0.6}
@@ -299,7 +338,13 @@ def polytomy_cases(run, rnd):
         order.reverse()
         expect("ReverseChildren", lnl(model, make_tree("(" + ",".join(f"{t}:{l}" for t, l in order) + ");"), aln, params, mprobs))
         expect("ReorderSeqs", lnl(model, tree, aln.take_seqs(list(reversed(tips))), params, mprobs))
-        if mprobs is not None or True:
+        if ntips > 30:
+            # wide case: a per-column sum would build one function per column; two blocks show merged patterns as well
+            h = (ncol // 2) * ml
+            expect("SplitIntoBlocks", lnl(model, tree, aln[:h], params, mprobs) + lnl(model, tree, aln[h:], params, mprobs))
+            rot = tips[7:] + tips[:7]
+            expect("RotateChildren", lnl(model, make_tree("(" + ",".join(f"{t}:{l}" for t, l in zip(rot, lens[7:] + lens[:7])) + ");"), aln, params, mprobs))
+        elif mprobs is not None or True:
             # columns are independent: lnL = sum over columns of the single-column lnL (same fixed motif probs)
             mp = mprobs
             if mp is None:
